@@ -103,31 +103,53 @@ fn stream_bytes(kind: &str) -> (Vec<u8>, bool) {
     }
 }
 
-pub fn run_one(scn: &Value) -> Vec<Value> {
-    let log = Log::default();
-    let net = Net::new(Role::Client, "c", log.clone());
+/// One poll of the driver: `Ready(projected connection error or "none")` or `Pending`.
+type Drive = Box<dyn FnMut(&mut Context<'_>) -> Poll<Value> + Send>;
+/// A request task's call: `true` = the call that runs into the primed error, `false` = a later call on the same handle.
+type StreamCall = Box<dyn FnMut(bool) -> Value + Send>;
+
+struct Parts {
+    drive: Drive,
+    streams: Vec<StreamCall>,
+    keep: Box<dyn std::any::Any>,
+}
+
+fn stream_res<T>(r: Option<Result<T, h3::error::StreamError>>, okk: &str) -> Value {
+    match r {
+        None => json!({"k": "pending"}),
+        Some(Ok(_)) => json!({"k": okk}),
+        Some(Err(e)) => proj::stream_err(&e),
+    }
+}
+
+fn client_parts(scn: &Value, net: &Net) -> Option<Parts> {
     fastrand::seed(7);
     let mut b = h3::client::builder();
     b.send_grease(false);
-    let built = block_on(Box::pin(b.build::<SimConn, SimOpener, Bytes>(net.conn())));
-    let (mut conn, mut sender) = match built {
-        Some(Ok(x)) => x,
-        _ => return vec![json!({"ev": "reset", "scn": scn["id"]}), json!({"ev": "harness_panic"})],
-    };
+    let (mut conn, mut sender) = block_on(Box::pin(b.build::<SimConn, SimOpener, Bytes>(net.conn())))?.ok()?;
     let kinds: Vec<String> = scn["streams"].as_array().map(|a| a.iter().map(|x| x.as_str().unwrap_or("").to_string()).collect()).unwrap_or_default();
-    let n = kinds.len();
-    let mut streams: Vec<h3::client::RequestStream<SimBidi, Bytes>> = vec![];
+    let mut streams: Vec<StreamCall> = vec![];
     for k in kinds.iter() {
         let req = http::Request::get("https://a/").body(()).unwrap();
-        let s = block_on(Box::pin(sender.send_request(req))).and_then(|r| r.ok());
-        let Some(s) = s else { return vec![json!({"ev": "reset", "scn": scn["id"]}), json!({"ev": "harness_panic"})] };
+        let mut s: h3::client::RequestStream<SimBidi, Bytes> = block_on(Box::pin(sender.send_request(req))).and_then(|r| r.ok())?;
         let sid = s.id().into_inner();
         let (bytes, fin) = stream_bytes(k);
         net.deliver(sid, &bytes);
         if fin {
             net.peer_fin(sid);
         }
-        streams.push(s);
+        streams.push(Box::new(move |first| {
+            if first {
+                stream_res(block_on(Box::pin(s.recv_response())), "response")
+            } else {
+                match block_on(Box::pin(s.recv_data())) {
+                    None => json!({"k": "pending"}),
+                    Some(Ok(Some(_))) => json!({"k": "data"}),
+                    Some(Ok(None)) => json!({"k": "none"}),
+                    Some(Err(e)) => proj::stream_err(&e),
+                }
+            }
+        }));
     }
     match scn["driver"].as_str().unwrap_or("none") {
         "missing_settings" => {
@@ -137,6 +159,75 @@ pub fn run_one(scn: &Value) -> Vec<Value> {
         "remote_close" => net.peer_close(PeerClose::App(0x4242)),
         _ => {}
     }
+    let drive: Drive = Box::new(move |cx| conn.poll_close(cx).map(|e| proj::conn_err(&e)));
+    Some(Parts { drive, streams, keep: Box::new(sender) })
+}
+
+fn server_parts(scn: &Value, net: &Net) -> Option<Parts> {
+    fastrand::seed(7);
+    let mut b = h3::server::builder();
+    b.send_grease(false);
+    let mut conn: h3::server::Connection<SimConn, Bytes> = block_on(Box::pin(b.build(net.conn())))?.ok()?;
+    let kinds: Vec<String> = scn["streams"].as_array().map(|a| a.iter().map(|x| x.as_str().unwrap_or("").to_string()).collect()).unwrap_or_default();
+    // the peer's control stream with SETTINGS, unless the driver is to find it missing
+    let drv = scn["driver"].as_str().unwrap_or("none").to_string();
+    if drv != "missing_settings" {
+        net.peer_open_uni(2);
+        net.deliver(2, &[0, 4, 0]);
+    }
+    let mut streams: Vec<StreamCall> = vec![];
+    for (i, k) in kinds.iter().enumerate() {
+        let sid = 4 * i as u64;
+        net.peer_open_bidi(sid);
+        // HEADERS { :method GET, :scheme https, :authority a, :path / }
+        net.deliver(sid, &[1, 8, 0, 0, 209, 215, 80, 1, 97, 193]);
+        let resolver = block_on(Box::pin(conn.accept()))?.ok()??;
+        let (_req, mut s) = block_on(Box::pin(resolver.resolve_request()))?.ok()?;
+        let (bytes, fin) = stream_bytes(k);
+        net.deliver(sid, &bytes);
+        // (on the server the undecodable section is a trailer section: it is examined once the stream has ended)
+        if fin || k == "qpack" {
+            net.peer_fin(sid);
+        }
+        streams.push(Box::new(move |_first| {
+            // the body read runs into the primed bytes (an undecodable trailer section is met by recv_trailers)
+            match block_on(Box::pin(s.recv_data())) {
+                None => json!({"k": "pending"}),
+                Some(Ok(Some(_))) => json!({"k": "data"}),
+                Some(Ok(None)) => stream_res(block_on(Box::pin(s.recv_trailers())), "trailers"),
+                Some(Err(e)) => proj::stream_err(&e),
+            }
+        }));
+    }
+    match drv.as_str() {
+        "missing_settings" => {
+            net.peer_open_uni(2);
+            net.deliver(2, &[0, 7, 1, 0]);
+        }
+        "remote_close" => net.peer_close(PeerClose::App(0x4242)),
+        _ => {}
+    }
+    let drive: Drive = Box::new(move |cx| {
+        let mut fut = Box::pin(conn.accept());
+        match fut.as_mut().poll(cx) {
+            Poll::Pending => Poll::Pending,
+            Poll::Ready(Err(e)) => Poll::Ready(proj::conn_err(&e)),
+            Poll::Ready(Ok(None)) => Poll::Ready(json!({"k": "none"})),
+            Poll::Ready(Ok(Some(_))) => Poll::Ready(json!({"k": "unexpected_request"})),
+        }
+    });
+    Some(Parts { drive, streams, keep: Box::new(()) })
+}
+
+pub fn run_one(scn: &Value) -> Vec<Value> {
+    let log = Log::default();
+    let is_server = scn["role"].as_str() == Some("server");
+    let net = Net::new(if is_server { Role::Server } else { Role::Client }, if is_server { "s" } else { "c" }, log.clone());
+    let parts = if is_server { server_parts(scn, &net) } else { client_parts(scn, &net) };
+    let Some(Parts { mut drive, streams, keep }) = parts else {
+        return vec![json!({"ev": "reset", "scn": scn["id"], "streams": scn["streams"], "driver": scn["driver"]}), json!({"ev": "harness_panic"}), json!({"ev": "quiesce"})];
+    };
+    let n = streams.len();
     let _ = log.take();
     let total = n + 1;
     let ctl = Arc::new(Ctl { m: Mutex::new(St { turn: None, at: vec![None; total], done: vec![false; total], events: vec![] }), cv: Condvar::new() });
@@ -156,14 +247,14 @@ pub fn run_one(scn: &Value) -> Vec<Value> {
             polls += 1;
             dwoken.0.store(false, Ordering::SeqCst);
             let mut cx = Context::from_waker(&waker);
-            let r = std::panic::catch_unwind(std::panic::AssertUnwindSafe(|| conn.poll_close(&mut cx)));
+            let r = std::panic::catch_unwind(std::panic::AssertUnwindSafe(|| drive(&mut cx)));
             match r {
                 Err(_) => {
                     dctl.ev(json!({"ev": "panic", "who": "driver"}));
                     break;
                 }
                 Ok(Poll::Ready(e)) => {
-                    last = proj::conn_err(&e);
+                    last = e;
                     dctl.ev(json!({"ev": "driver_poll", "n": polls, "res": last.clone()}));
                     break;
                 }
@@ -180,7 +271,7 @@ pub fn run_one(scn: &Value) -> Vec<Value> {
         }
         h3::verif::set_hook(None);
         dctl.finish(0);
-        (conn, last)
+        (drive, last)
     });
     // ---- request task threads (1..=n)
     let mut handles = vec![];
@@ -191,12 +282,10 @@ pub fn run_one(scn: &Value) -> Vec<Value> {
             let c2 = sctl.clone();
             h3::verif::set_hook(Some(Box::new(move |name| c2.gate(me, name))));
             sctl.gate(me, "s:start");
-            let r = std::panic::catch_unwind(std::panic::AssertUnwindSafe(|| block_on(Box::pin(s.recv_response()))));
+            let r = std::panic::catch_unwind(std::panic::AssertUnwindSafe(|| s(true)));
             let res = match r {
                 Err(_) => json!({"k": "panic"}),
-                Ok(None) => json!({"k": "pending"}),
-                Ok(Some(Ok(_))) => json!({"k": "response"}),
-                Ok(Some(Err(e))) => proj::stream_err(&e),
+                Ok(v) => v,
             };
             sctl.ev(json!({"ev": "result", "who": format!("s{me}"), "res": res}));
             h3::verif::set_hook(None);
@@ -280,22 +369,16 @@ pub fn run_one(scn: &Value) -> Vec<Value> {
             hops += 1;
         }
     }
-    let (mut conn, _last) = driver.join().expect("driver thread");
+    let (mut drive, _last) = driver.join().expect("driver thread");
     let mut later = vec![];
     for k in 0..2 {
-        let e = block_on(Box::pin(async { std::future::poll_fn(|cx| conn.poll_close(cx)).await }));
-        later.push(json!({"ev": "later", "who": "driver", "n": k + 1, "res": e.map(|e| proj::conn_err(&e)).unwrap_or(json!({"k": "pending"}))}));
+        let e = block_on(Box::pin(std::future::poll_fn(|cx| drive(cx))));
+        later.push(json!({"ev": "later", "who": "driver", "n": k + 1, "res": e.unwrap_or(json!({"k": "pending"}))}));
     }
     for (i, h) in handles.into_iter().enumerate() {
         let mut s = h.join().expect("stream thread");
         for k in 0..2 {
-            let r = block_on(Box::pin(s.recv_data()));
-            let res = match r {
-                None => json!({"k": "pending"}),
-                Some(Ok(Some(_))) => json!({"k": "data"}),
-                Some(Ok(None)) => json!({"k": "none"}),
-                Some(Err(e)) => proj::stream_err(&e),
-            };
+            let res = s(false);
             later.push(json!({"ev": "later", "who": format!("s{}", i + 1), "n": k + 1, "res": res}));
         }
     }
@@ -306,7 +389,7 @@ pub fn run_one(scn: &Value) -> Vec<Value> {
         }
     }
     evs.push(json!({"ev": "quiesce"}));
-    drop(sender);
+    drop(keep);
     evs
 }
 
